@@ -156,6 +156,17 @@ Theorem C17_files_independent : forall body fsys pre j post,
 Proof. intros. split; [apply run_all_length | apply run_all_independent]. Qed.
 Print Assumptions C17_files_independent.
 
+(* 6. Inherited template-data (a sub-package of a `recursive: true` package, a package under the
+   top level): the file is rendered from the EFFECTIVE settings - a key the file's own level does
+   not set is the ancestor's - so a file that sets neither key carries exactly the ancestor's
+   boilerplate and constraint, and theorems 1-3 apply to it with those. *)
+Theorem C17_inherited_settings : forall body own parent,
+  s_bp own = None -> s_tags own = None ->
+  render_file body (effective own parent) =
+  header (s_fmt own) (s_tmpl own) (s_bp parent) (s_tags parent) ++ pkg_line (s_pkg own) ++ body (effective own parent).
+Proof. intros body own parent B T. unfold render_file, effective. simpl. rewrite B, T. reflexivity. Qed.
+Print Assumptions C17_inherited_settings.
+
 (* the parser's fuel is always sufficient: never OutOfFuel *)
 Theorem C17_parser_total : forall acc ts, or_from (fuel_for ts) acc ts <> PFuel.
 Proof. exact or_from_total. Qed.
